@@ -2,6 +2,9 @@
 // analysed by E1 under the tag "ctl" with --root /verif/units, never compiled into anything.  Each function
 // contains exactly the construct its rule must report; a run in which a control does NOT fire is
 // ANALYSIS-BROKEN (the matcher went blind), never a pass.
+#include <cassert>
+#include <algorithm>
+#include <cctype>
 #include <cstdlib>
 #include <cstring>
 #include <ctime>
@@ -125,5 +128,13 @@ double sums_columns_by_append(const soplex::SVectorBase<double>* cols, const dou
    soplex::VectorBase<double> dense(dim);
    dense = y;
    return dense[0];
+}
+
+// R13.11: an assertion about the character class of text that comes from a file (the shape of finding F37)
+int asserts_digits(const char* text)
+{
+   std::string s(text);
+   assert(std::all_of(s.begin(), s.end(), ::isdigit));
+   return atoi(s.c_str());
 }
 }
